@@ -93,6 +93,86 @@ def check_name(v, table):
     return None
 
 
+def name_history(ops, table):
+    """a history of assignments on ONE Name object (fields through their setters, value, bytes), all three views read
+    back after every step: they must describe the same 64 bits at all times.  Returns None or a description."""
+    v0 = ops[0][1]
+    n = j1939.Name(value=v0)
+    exp = parse(table, v0)
+    exp["reserved_bit"] = 0
+    for k, op in enumerate(ops):
+        if k == 0:
+            pass
+        elif op[0] == "set":
+            setattr(n, op[1], op[2])
+            exp[op[1]] = op[2]
+        elif op[0] == "value":
+            n.value = op[1]
+            exp = parse(table, op[1])
+            exp["reserved_bit"] = 0
+        else:
+            n.bytes = list(op[1].to_bytes(8, "little"))
+            exp = parse(table, op[1])
+            exp["reserved_bit"] = 0
+        want = compose(table, exp)
+        for rep in range(2):                 # read twice: a cached view must not go stale
+            got = name_fields(n)
+            if got != exp:
+                return "after step %d (%r): fields %r, expected %r" % (k, op[:2], got, exp)
+            if n.value != want:
+                return "after step %d (%r): value 0x%016X, expected 0x%016X" % (k, op[:2], n.value, want)
+            if list(n.bytes) != list(want.to_bytes(8, "little")):
+                return "after step %d (%r): bytes %r, expected %r" % (k, op[:2], list(n.bytes), list(want.to_bytes(8, "little")))
+    return None
+
+
+def gen_name_history(rng, table):
+    ops = [("init", rng.getrandbits(64))]
+    for _ in range(rng.randint(1, 7)):
+        k = rng.random()
+        if k < 0.7:
+            e = rng.choice([x for x in table if x["f"] != "reserved_bit"])
+            ops.append(("set", e["f"], rng.choice([0, 1, (1 << e["w"]) - 1, rng.randrange(1 << e["w"])])))
+        elif k < 0.85:
+            ops.append(("value", rng.getrandbits(64) & ~(1 << 48)))      # (what an assigned reserved bit reads as is not specified)
+        else:
+            ops.append(("bytes", rng.getrandbits(64) & ~(1 << 48)))
+    return ops
+
+
+def id_history(ops, table):
+    """assignments on ONE MessageId object (can_id, priority, parameter_group_number, source_address)"""
+    m = j1939.MessageId(can_id=ops[0][1])
+    f = parse(table, ops[0][1])
+    for k, op in enumerate(ops):
+        if k and op[0] == "can_id":
+            m.can_id = op[1]
+            f = parse(table, op[1])
+        elif k:
+            setattr(m, op[0], op[1])
+            if op[0] == "priority":
+                f["prio"] = op[1]
+            elif op[0] == "source_address":
+                f["sa"] = op[1]
+            else:
+                f.update(edp=(op[1] >> 17) & 1, dp=(op[1] >> 16) & 1, pf=(op[1] >> 8) & 255, ps=op[1] & 255)
+        want = compose(table, f)
+        pgn18 = (f["edp"] << 17) | (f["dp"] << 16) | (f["pf"] << 8) | f["ps"]
+        if m.can_id != want or (m.priority, m.parameter_group_number, m.source_address) != (f["prio"], pgn18, f["sa"]):
+            return "after step %d (%r): can_id 0x%X / (%r, 0x%X, %r), expected 0x%X" % (k, op, m.can_id, m.priority, m.parameter_group_number, m.source_address, want)
+    return None
+
+
+def gen_id_history(rng):
+    ops = [("can_id", rng.getrandbits(29))]
+    for _ in range(rng.randint(1, 5)):
+        k = rng.choice(["can_id", "priority", "parameter_group_number", "source_address"])
+        ops.append((k, {"can_id": rng.getrandbits(29), "priority": rng.choice([0, 7, rng.randrange(8)]),
+                        "parameter_group_number": rng.choice([0, 0x3FFFF, rng.getrandbits(18)]),
+                        "source_address": rng.choice([0, 255, rng.randrange(256)])}[k]))
+    return ops
+
+
 def sweep_ids(args):
     lo, hi, step, table = args
     for i in range(lo, hi, step):
@@ -106,7 +186,8 @@ def run(chk, replay):
     chk.level = "exploration"
     chk.rule = ("TLC-computed vectors (1248 identifier tuples, 195 NAME images, 192 order pairs) in both directions, then "
                 "whole-domain sweeps against the TLC-exported layout tables: all 2^18 PGNs, identifiers (quick: 2^21 "
-                "structured + seeded; thorough: all 2^29), seeded NAMEs; distinct non-trivial = distinct vectors / values "
+                "structured + seeded; thorough: all 2^29), seeded NAMEs, seeded histories of assignments on one Name / MessageId object "
+                "(fields, value, bytes / can_id read back after every step); distinct non-trivial = distinct vectors / values "
                 "checked with at least two non-zero fields")
     chk.assumptions = ["not a proof over 2^64 NAMEs: a shift/mask codec that is right for a bit walking over every "
                        "position on three backgrounds, from fields, value and bytes, cannot be wrong in a single field; "
@@ -119,7 +200,12 @@ def run(chk, replay):
     id_t, name_t = tlc.evaluate("CodecVec", "<<IdLayout, NameLayout>>", tag="lay")
     if replay:
         r = common.json.load(open(replay))["scenario"]
-        res = check_id(r["value"], id_t) if r["kind"] == "id" else check_pgn(r["value"]) if r["kind"] == "pgn" else check_name(r["value"], name_t)
+        if r["kind"] == "namehist":
+            res = name_history([tuple(o) for o in r["value"]], name_t)
+        elif r["kind"] == "idhist":
+            res = id_history([tuple(o) for o in r["value"]], id_t)
+        else:
+            res = check_id(r["value"], id_t) if r["kind"] == "id" else check_pgn(r["value"]) if r["kind"] == "pgn" else check_name(r["value"], name_t)
         if res:
             chk.report(r, [res], kind="vector")
         return
@@ -205,6 +291,19 @@ def run(chk, replay):
             bad("name", v, r)
             break
     n += 100000 if quick else 1000000
+    # (3) histories on one object: the three views of a Name (fields, value, bytes) and the two of a MessageId stay consistent
+    for _ in range(20000 if quick else 300000):
+        ops = gen_name_history(rng, name_t)
+        r = name_history(ops, name_t)
+        if r:
+            bad("namehist", [list(o) for o in ops], r)
+            break
+        ops = gen_id_history(rng)
+        r = id_history(ops, id_t)
+        if r:
+            bad("idhist", [list(o) for o in ops], r)
+            break
+    n += 40000 if quick else 600000
     chk.evaluations = n
     chk.traces = len(idv) + len(namev) + len(orderv)
     chk.extra["explanation"] = "traces_validated_against_impl counts the TLC-computed vectors compared with the implementation"
